@@ -285,7 +285,20 @@ pub fn guard_violation(m: &Model, gs: &GuardState, op: &FsOp) -> Option<&'static
             // looking at the tree is fine while a rename / remove is unsynced
             FsOp::ReadWhole { .. } | FsOp::Metadata { .. } | FsOp::Exists { .. } | FsOp::ReadDir { .. } => None,
             // so is renaming the same (quiescent, handle-free) file on to a fresh name: a chain a -> b -> c
-            FsOp::Rename { from, to, .. } if gs.renamed_to.as_deref() == Some(from.as_str()) && m.is_file(from) && !m.exists(to) && from != to && !m.stale_paths.contains(to) => None,
+            // (inside one directory only: sync_dir flushes the renames that touch *its* directory, so a
+            // chain that wanders through several directories is flushed out of order — known finding)
+            FsOp::Rename { from, to, .. }
+                if gs.renamed_to.as_deref() == Some(from.as_str())
+                    && m.is_file(from)
+                    && !m.exists(to)
+                    && from != to
+                    && !m.stale_paths.contains(to)
+                    && parent_of(from) == parent_of(to)
+                    && gs.must_sync.len() == 1
+                    && gs.must_sync.contains_key(&parent_of(from)) =>
+            {
+                None
+            }
             _ => Some(why),
         };
     }
